@@ -178,8 +178,59 @@ Section WithOracle.
   Definition T_F8 (filter : bool) (h : list step) : bool :=
     filter && existsb (fun s => negb (snd (jq (snd s))) && negb (single_object (fst (jq (snd s))))) h.
 
+  (* the known finding F8, as narrow as it is: what the finding says is that only the OBJECT
+     outputs of the filter count, merged into one object ([glue]); it touches the property
+     where two results that DIFFER - as the sequences of outputs they are - merge into the
+     same object (3 and 4 both give {}; {x:1},{x:5} and {x:2},{x:5} both give {x:5}).  A
+     history in which no two object states are confused in this way is no instance of F8,
+     however many outputs the filter has and of whatever kinds they are, in whatever order:
+     there a change in the part an object output produces IS a change of the projection
+     and must trigger, null / scalar / array outputs before or after it notwithstanding. *)
+  Definition confused (a b : proj) : bool :=
+    negb (snd a) && negb (snd b)
+    && negb (list_eqb json_eqb (fst a) (fst b))
+    && json_eqb (glue (fst a)) (glue (fst b)).
+  Definition T_F8m (filter : bool) (h : list step) : bool :=
+    filter && existsb (fun s => existsb (fun s' => confused (jq (snd s)) (jq (snd s'))) h) h.
+
   (* trigger of the known finding F16: the filter fails on some object of the history *)
   Definition T_F16 (filter : bool) (h : list step) : bool :=
     filter && existsb (fun s => snd (jq (snd s))) h.
 
 End WithOracle.
+
+(* ---- what the snapshot shows of a result with several outputs ----
+   "suppressed changes still update what snapshots show": beside the object the snapshot shows
+   the binding's filterResult.  With F8 as it stands (non-object outputs contribute nothing)
+   the filterResult of a result with the outputs [outs] must still show, for every key, what
+   the LAST object output that binds the key says - a later object output overrides an earlier
+   one key by key, and an output that is null, a scalar or an array neither adds a key nor
+   hides, ends or resets what the object outputs before and after it contribute - and no key
+   that no object output binds. *)
+Fixpoint last_binding (k : bytes) (m : list (bytes * json)) : option json :=
+  match m with
+  | [] => None
+  | (k', v) :: r =>
+      match last_binding k r with
+      | Some w => Some w
+      | None => if bytes_eqb k k' then Some v else None
+      end
+  end.
+
+Fixpoint last_out (k : bytes) (outs : list json) : option json :=
+  match outs with
+  | [] => None
+  | v :: r =>
+      match last_out k r with
+      | Some w => Some w
+      | None => match v with JObj m => last_binding k m | _ => None end
+      end
+  end.
+
+Definition out_keys (outs : list json) : list bytes := flat_map jkeys outs.
+
+Definition fr_shows (outs : list json) (fr : json) : bool :=
+  match fr with
+  | JObj _ => forallb (fun k => option_eqb json_eqb (jget k fr) (last_out k outs)) (jkeys fr ++ out_keys outs)
+  | _ => false
+  end.
